@@ -18,11 +18,69 @@ fn merge_heavy_cfg() -> GenCfg {
     GenCfg { share_fields: 85, max_entries: 4, max_list: 4, ..Default::default() }
 }
 
+/// `of(k, n)` / `all(k)` over 64..140 needles (per-needle counting beyond the 64-bit bitmap)
+fn wide_quantifier_rule(rng: &mut Rng) -> RuleAst {
+    use crate::ast::*;
+    let k = 64 + rng.below(70);
+    let ms: Vec<RVal> = (0..k).map(|i| RVal::Str(format!("*w{}.*", i))).collect();
+    let modi = if rng.chance(30) { KMod::All } else { KMod::Of(1 + rng.below(3) as u64) };
+    RuleAst { idents: vec![("I0".into(), Ident::Map(vec![(Key::with("a", modi), RVal::List(ms))]))], cond: Cond::id("I0"), tp: vec![], tn: vec![] }
+}
+
+/// three or four and-ed nested blocks over one field, and documents whose field is an array of
+/// a fixed number of objects with the satisfying entries scattered over random positions
+fn nested_array_case(rng: &mut Rng, ndocs: usize) -> Option<(RuleAst, String, Vec<DVal>)> {
+    use crate::ast::*;
+    let nb = 3 + rng.below(2);
+    let keys = ["a", "b", "x", "y"];
+    let vals = ["foo", "bar", "baz", "qux"];
+    let idents: Vec<(String, Ident)> = (0..nb).map(|i| (format!("I{}", i), Ident::Map(vec![(Key::plain("n"), RVal::Map(vec![(Key::plain(keys[i]), RVal::Str(vals[i].into()))]))]))).collect();
+    let mut cond = Cond::id("I0");
+    for i in 1..nb {
+        cond = Cond::and(cond, Cond::id(&format!("I{}", i)));
+    }
+    let ast = RuleAst { idents, cond, tp: vec![], tn: vec![] };
+    let text = ast.to_text()?;
+    let len = 2 + rng.below(3);
+    let docs = (0..ndocs)
+        .map(|_| {
+            let mut elems: Vec<Vec<(String, DVal)>> = (0..len).map(|_| vec![]).collect();
+            for i in 0..nb {
+                if rng.chance(88) {
+                    let at = rng.below(len);
+                    elems[at].push((keys[i].to_string(), DVal::s(vals[i])));
+                } else {
+                    let at = rng.below(len);
+                    elems[at].push((keys[i].to_string(), DVal::s("nope")));
+                }
+            }
+            DVal::Obj(vec![("n".into(), DVal::Arr(elems.into_iter().map(DVal::Obj).collect()))])
+        })
+        .collect();
+    Some((ast, text, docs))
+}
+
 fn gen_case(rng: &mut Rng, ndocs: usize) -> Option<(RuleAst, String, Vec<DVal>)> {
-    let ast = if rng.chance(35) { crate::c16::matrix_rule(rng) } else { gen::gen_rule(rng, &merge_heavy_cfg()) };
+    if rng.chance(12) {
+        return nested_array_case(rng, ndocs);
+    }
+    let ast = match rng.below(20) {
+        0..=6 => crate::c16::matrix_rule(rng),
+        7..=10 => gen::nested_family_rule(rng, &merge_heavy_cfg()),
+        11 => wide_quantifier_rule(rng),
+        _ => gen::gen_rule(rng, &merge_heavy_cfg()),
+    };
     let text = ast.to_text()?;
     let leaves = gen::collect_leaves(&ast);
-    let docs = (0..ndocs).map(|_| gen::gen_doc(rng, &leaves)).collect();
+    let mut docs: Vec<DVal> = (0..ndocs).map(|_| gen::gen_doc(rng, &leaves)).collect();
+    if leaves.len() >= 60 {
+        // wide list: values hitting different small sets of needles
+        for d in docs.iter_mut() {
+            let n = rng.below(5);
+            let s: String = (0..n).map(|_| format!("w{}.", rng.below(leaves.len()))).collect();
+            *d = DVal::Obj(vec![("a".into(), DVal::Str(format!("_{}", s)))]);
+        }
+    }
     Some((ast, text, docs))
 }
 
@@ -100,11 +158,14 @@ fn toggle_case_flags(r: &mut RuleAst) {
     }
 }
 
-fn fresh_thread_verdict(text: &str, doc: &DVal) -> Option<bool> {
+/// verdict of a freshly loaded (and, if `sw` is not 0, freshly optimised) rule on one document,
+/// computed on a fresh thread: no state of any earlier evaluation can be involved
+fn fresh_thread_verdict(text: &str, doc: &DVal, sw: Sw) -> Option<bool> {
     let text = text.to_string();
     let doc = doc.clone();
     std::thread::spawn(move || {
         let rule = eng::load_ok(&text)?;
+        let rule = if sw.0 == 0 { rule } else { eng::optimise(&rule, sw).ok()? };
         eng::matches(&rule, &to_yaml_map(&doc)).ok()
     })
     .join()
@@ -301,7 +362,8 @@ pub fn run(ctx: &Ctx) -> i32 {
             }
             // (d) purity: per-document verdicts do not depend on what was matched before
             if n % 3 == 0 {
-                let fresh: Vec<Option<bool>> = docs.iter().map(|d| fresh_thread_verdict(&text, d)).collect();
+                let fresh: Vec<Option<bool>> = docs.iter().map(|d| fresh_thread_verdict(&text, d, Sw(0))).collect();
+                let fresh_opt: Vec<Option<bool>> = docs.iter().map(|d| fresh_thread_verdict(&text, d, Sw(15))).collect();
                 let opt = eng::optimise(&rule, Sw(15)).ok();
                 let before = (format!("{}", rule.detection.expression), format!("{:?}", rule));
                 let k = docs.len().min(5);
@@ -312,7 +374,7 @@ pub fn run(ctx: &Ctx) -> i32 {
                         for &i in perm {
                             rep.evaluations += 1;
                             let v = eng::matches(r, &maps[i]).ok();
-                            let want = if which == "unoptimised" { fresh[i] } else { eng::optimise(&rule, Sw(15)).ok().and_then(|f| eng::matches(&f, &maps[i]).ok()) };
+                            let want = if which == "unoptimised" { fresh[i] } else { fresh_opt[i] };
                             if v != want {
                                 rep.violation(
                                     "history-dependent",
